@@ -91,7 +91,10 @@ func gomodHandler(raw json.RawMessage) map[string]interface{} {
 	}
 	var paths []string
 	if len(c.Files) > 0 {
-		dir, err := os.MkdirTemp("", "vrun-gomod-")
+		dir, err := os.MkdirTemp(".", "vrun-gomod-")
+		if err == nil {
+			dir, err = filepath.Abs(dir)
+		}
 		if err != nil {
 			return map[string]interface{}{"harness_panic": err.Error()}
 		}
